@@ -1253,3 +1253,373 @@ theorem getter_unset (f : FieldDef) (v : GoVal) (hs : supportIsSet f = true) (hu
   simp [getter, hs, hu]
 
 end Gen.Defaults
+
+namespace Gen.Defaults
+
+def resOk {α : Type} : Res α → Bool
+  | .ok _ => true
+  | _ => false
+
+/-- the identifier resolves to a Go name in scope `g` -/
+def idResolves (E : Env) (g : Nat) (x : Option Extra) : Bool :=
+  match getID E g x with
+  | .ok (some _) => true
+  | _ => false
+
+/-- looking the identifier up crashes (no Extra: `true`/`false` where no boolean is expected; a scope that
+    does not have the include) -/
+def idPanics (E : Env) (g : Nat) (x : Option Extra) : Bool :=
+  match getID E g x with
+  | .panic => true
+  | _ => false
+
+def isTF (s : Bytes) : Bool := s = bTrue || s = bFalse
+
+/-- the kinds of initializer each scalar category takes (C04's catalogue) -/
+def accScalar (E : Env) (root g : Nat) (t : ATy) (v : CV) : Bool :=
+  match t.cat with
+  | .bool =>
+      (match v with
+       | .int _ | .dbl _ _ => true
+       | .ident s x => isTF s || idResolves E g x
+       | _ => false)
+  | .i8 | .i16 | .i32 | .i64 =>
+      (match v with
+       | .int _ => true
+       | .ident s x => isTF s || (idResolves E g x && (typeName E root g t matches .ok _ | .err))
+       | _ => false)
+  | .dbl =>
+      (match v with
+       | .int _ | .dbl _ _ => true
+       | .ident s x => isTF s || idResolves E g x
+       | _ => false)
+  | .str | .bin =>
+      (match v with
+       | .lit _ => true
+       | .ident s x => !isTF s && idResolves E g x
+       | _ => false)
+  | .enum =>
+      (match v with
+       | .int _ => true
+       | .ident _ x => idResolves E g x
+       | _ => false)
+  | _ => false
+
+mutual
+/-- exactly the initializers thriftgo accepts (the tolerance for containers included) -/
+def accepts (E : Env) (root : Nat) : Nat → ATy → CV → Bool
+  | g, t, v =>
+    match t.cat with
+    | .list | .set =>
+        resOk (typeName E root g t) &&
+        (match v with
+         | .list xs => acceptsL E root g t.elem? xs
+         | .ident _ x => !idPanics E g x
+         | _ => true)                                     -- any other kind: `T{}`
+    | .map =>
+        resOk (typeName E root g t) &&
+        (match v with
+         | .map kvs => acceptsP E root g (t.key?.map bin2str) t.elem? kvs
+         | .ident _ x => !idPanics E g x
+         | _ => true)
+    | .strct =>
+        resOk (typeName E root g t) &&
+        (match v with
+         | .ident _ x => idResolves E g x
+         | .map kvs =>
+             (match structOf E g t with
+              | .ok (file, st) => acceptsM E root file st kvs
+              | _ => false)
+         | _ => false)
+    | _ => accScalar E root g t v
+def acceptsL (E : Env) (root : Nat) : Nat → Option ATy → List CV → Bool
+  | _, _, [] => true
+  | _, none, _ :: _ => false
+  | g, some e, x :: xs => accepts E root g e x && acceptsL E root g (some e) xs
+def acceptsP (E : Env) (root : Nat) : Nat → Option ATy → Option ATy → List (CV × CV) → Bool
+  | _, _, _, [] => true
+  | g, some kt, some vt, (k, v) :: r => accepts E root g kt k && accepts E root g vt v && acceptsP E root g (some kt) (some vt) r
+  | _, _, _, _ :: _ => false
+def acceptsM (E : Env) (root : Nat) : Nat → AStruct → List (CV × CV) → Bool
+  | _, _, [] => true
+  | file, st, (k, v) :: r =>
+      (match k with
+       | .lit n =>
+           (match findField st.fields n with
+            | some (_, f) => resOk (typeName E root file f.ty) && accepts E root file f.ty v
+            | none => false)
+       | _ => false) && acceptsM E root file st r
+end
+
+theorem bFalse_ne_bTrue : bFalse ≠ bTrue := by decide
+
+theorem getID_cases (E : Env) (g : Nat) (x : Option Extra) :
+    (∃ r, getID E g x = .ok (some r)) ∨ getID E g x = .ok none ∨ getID E g x = .panic := by
+  cases h : getID E g x with
+  | ok o => cases o with
+    | none => exact Or.inr (Or.inl rfl)
+    | some r => exact Or.inl ⟨r, rfl⟩
+  | err => exact absurd h getID_not_err
+  | panic => exact Or.inr (Or.inr rfl)
+
+theorem onBool_isOk (E : Env) (g : Nat) (v : CV) :
+    resOk (onBool E g v) = (match v with
+       | .int _ | .dbl _ _ => true
+       | .ident s x => isTF s || idResolves E g x
+       | _ => false) := by
+  cases v with
+  | ident s x =>
+    simp only [onBool, isTF, idResolves]
+    by_cases h1 : s = bTrue
+    · simp [h1, resOk]
+    · by_cases h2 : s = bFalse
+      · simp [h2, resOk, bFalse_ne_bTrue]
+      · simp only [h1, h2, if_false]
+        rcases getID_cases E g x with ⟨r, h⟩ | h | h <;> simp [h, resOk]
+  | _ => simp [onBool, resOk]
+
+theorem onDouble_isOk (E : Env) (g : Nat) (v : CV) :
+    resOk (onDouble E g v) = (match v with
+       | .int _ | .dbl _ _ => true
+       | .ident s x => isTF s || idResolves E g x
+       | _ => false) := by
+  cases v with
+  | ident s x =>
+    simp only [onDouble, isTF, idResolves]
+    by_cases h1 : s = bTrue
+    · simp [h1, resOk]
+    · by_cases h2 : s = bFalse
+      · simp [h2, resOk, bFalse_ne_bTrue]
+      · simp only [h1, h2, if_false]
+        rcases getID_cases E g x with ⟨r, h⟩ | h | h <;> simp [h, resOk]
+  | _ => simp [onDouble, resOk]
+
+theorem onInt_isOk (E : Env) (root g : Nat) (t : ATy) (v : CV) :
+    resOk (onInt E root g t v) = (match v with
+       | .int _ => true
+       | .ident s x => isTF s || (idResolves E g x && (typeName E root g t matches .ok _ | .err))
+       | _ => false) := by
+  cases v with
+  | ident s x =>
+    simp only [onInt, isTF, idResolves]
+    by_cases h1 : s = bTrue
+    · simp [h1, resOk]
+    · by_cases h2 : s = bFalse
+      · simp [h2, resOk, bFalse_ne_bTrue]
+      · simp only [h1, h2, if_false]
+        rcases getID_cases E g x with ⟨r, h⟩ | h | h
+        · cases htn : typeName E root g t <;> simp [h, resOk]
+        · simp [h, resOk]
+        · simp [h, resOk]
+  | _ => simp [onInt, resOk]
+
+theorem onEnum_isOk (E : Env) (g : Nat) (v : CV) :
+    resOk (onEnum E g v) = (match v with
+       | .int _ => true
+       | .ident _ x => idResolves E g x
+       | _ => false) := by
+  cases v with
+  | ident s x =>
+    simp only [onEnum, idResolves]
+    rcases getID_cases E g x with ⟨r, h⟩ | h | h <;> simp [h, resOk]
+  | _ => simp [onEnum, resOk]
+
+theorem onStrBin_isOk (E : Env) (g : Nat) (t : ATy) (v : CV) :
+    resOk (onStrBin E g t v) = (match v with
+       | .lit _ => true
+       | .ident s x => !isTF s && idResolves E g x
+       | _ => false) := by
+  have core : resOk (strBinCore E g v) = (match v with
+       | .lit _ => true
+       | .ident s x => !isTF s && idResolves E g x
+       | _ => false) := by
+    cases v with
+    | ident s x =>
+      simp only [strBinCore, isTF, idResolves]
+      by_cases hb : (s = bTrue || s = bFalse) = true
+      · simp only [hb, if_true]; simp [resOk]
+      · simp only [hb, Bool.false_eq_true, if_false]
+        rcases getID_cases E g x with ⟨r, h⟩ | h | h <;> simp [h, resOk]
+    | _ => simp [strBinCore, resOk]
+  rw [← core]
+  unfold onStrBin
+  cases strBinCore E g v with
+  | ok e => by_cases hc : (t.cat == Cat.bin) = true <;> simp [hc, resOk]
+  | err => rfl
+  | panic => rfl
+
+/-- scalars: thriftgo accepts exactly the kinds of the catalogue -/
+theorem scalar_isOk (E : Env) (root g : Nat) (t : ATy) (v : CV)
+    (hsc : t.cat ≠ .list ∧ t.cat ≠ .set ∧ t.cat ≠ .map ∧ t.cat ≠ .strct) :
+    resOk (resolveConst E root g t v) = accScalar E root g t v := by
+  rw [resolveConst.eq_def]
+  unfold accScalar
+  cases hc : t.cat with
+  | bool => simp only [hc]; exact onBool_isOk E g v
+  | i8 => simp only [hc]; rw [onInt_isOk]
+  | i16 => simp only [hc]; rw [onInt_isOk]
+  | i32 => simp only [hc]; rw [onInt_isOk]
+  | i64 => simp only [hc]; rw [onInt_isOk]
+  | dbl => simp only [hc]; exact onDouble_isOk E g v
+  | str => simp only [hc]; exact onStrBin_isOk E g t v
+  | bin => simp only [hc]; exact onStrBin_isOk E g t v
+  | enum => simp only [hc]; exact onEnum_isOk E g v
+  | list => exact absurd hc hsc.1
+  | set => exact absurd hc hsc.2.1
+  | map => exact absurd hc hsc.2.2.1
+  | strct => exact absurd hc hsc.2.2.2
+
+
+theorem accepts_scalar (E : Env) (root g : Nat) (t : ATy) (v : CV)
+    (hsc : t.cat ≠ .list ∧ t.cat ≠ .set ∧ t.cat ≠ .map ∧ t.cat ≠ .strct) :
+    accepts E root g t v = accScalar E root g t v := by
+  rw [accepts.eq_def]
+  cases hc : t.cat <;> simp_all
+
+/-- composite types with a leaf initializer (number, literal, identifier) -/
+theorem leaf_isOk (E : Env) (root g : Nat) (t : ATy) (v : CV) (hl : v.isLeaf = true) :
+    resOk (resolveConst E root g t v) = accepts E root g t v := by
+  by_cases hsc : t.cat ≠ .list ∧ t.cat ≠ .set ∧ t.cat ≠ .map ∧ t.cat ≠ .strct
+  · rw [scalar_isOk E root g t v hsc, accepts_scalar E root g t v hsc]
+  · rw [resolveConst.eq_def, accepts.eq_def]
+    have hcomp : t.cat = .list ∨ t.cat = .set ∨ t.cat = .map ∨ t.cat = .strct := by
+      cases hc : t.cat <;> simp_all
+    rcases hcomp with hc | hc | hc | hc
+    all_goals
+      simp only [hc]
+      cases htn : typeName E root g t with
+      | err => simp [resOk]
+      | panic => simp [resOk]
+      | ok ty =>
+        cases v with
+        | list xs => simp [CV.isLeaf] at hl
+        | map kvs => simp [CV.isLeaf] at hl
+        | ident s x =>
+          simp only [idPanics, idResolves]
+          rcases getID_cases E g x with ⟨r, h⟩ | h | h <;> simp [h, resOk]
+        | int n => simp [resOk]
+        | dbl b tx => simp [resOk]
+        | lit s => simp [resOk]
+
+section acc
+variable (E : Env) (root : Nat)
+
+mutual
+theorem rc_isOk : ∀ (v : CV) (g : Nat) (t : ATy), resOk (resolveConst E root g t v) = accepts E root g t v
+  | .int n, g, t => leaf_isOk E root g t _ rfl
+  | .dbl b tx, g, t => leaf_isOk E root g t _ rfl
+  | .lit s, g, t => leaf_isOk E root g t _ rfl
+  | .ident s x, g, t => leaf_isOk E root g t _ rfl
+  | .list xs, g, t => by
+      by_cases hsc : t.cat ≠ .list ∧ t.cat ≠ .set ∧ t.cat ≠ .map ∧ t.cat ≠ .strct
+      · rw [scalar_isOk E root g t _ hsc, accepts_scalar E root g t _ hsc]
+      · rw [resolveConst.eq_def, accepts.eq_def]
+        have ih := rl_isOk xs g t.elem?
+        have hcomp : t.cat = .list ∨ t.cat = .set ∨ t.cat = .map ∨ t.cat = .strct := by
+          cases hc : t.cat <;> simp_all
+        rcases hcomp with hc | hc | hc | hc
+        all_goals
+          simp only [hc]
+          cases htn : typeName E root g t with
+          | err => simp [resOk]
+          | panic => simp [resOk]
+          | ok ty =>
+            first
+              | (rw [← ih]; cases resolveList E root g t.elem? xs <;> simp [resOk])
+              | simp [resOk]
+  | .map kvs, g, t => by
+      by_cases hsc : t.cat ≠ .list ∧ t.cat ≠ .set ∧ t.cat ≠ .map ∧ t.cat ≠ .strct
+      · rw [scalar_isOk E root g t _ hsc, accepts_scalar E root g t _ hsc]
+      · rw [resolveConst.eq_def, accepts.eq_def]
+        have ihp := rp_isOk kvs g (t.key?.map bin2str) t.elem?
+        have hcomp : t.cat = .list ∨ t.cat = .set ∨ t.cat = .map ∨ t.cat = .strct := by
+          cases hc : t.cat <;> simp_all
+        rcases hcomp with hc | hc | hc | hc
+        · simp only [hc]
+          cases htn : typeName E root g t <;> simp [resOk]
+        · simp only [hc]
+          cases htn : typeName E root g t <;> simp [resOk]
+        · simp only [hc]
+          cases htn : typeName E root g t with
+          | err => simp [resOk]
+          | panic => simp [resOk]
+          | ok ty =>
+            rw [← ihp]
+            cases resolvePairs E root g (t.key?.map bin2str) t.elem? kvs <;> simp [resOk]
+        · simp only [hc]
+          cases htn : typeName E root g t with
+          | err => simp [resOk]
+          | panic => simp [resOk]
+          | ok ty =>
+            cases hso : structOf E g t with
+            | err => simp [resOk]
+            | panic => simp [resOk]
+            | ok p =>
+              obtain ⟨file, st⟩ := p
+              have ihm := rm_isOk kvs file st
+              simp only []
+              rw [← ihm]
+              cases resolveMembers E root file st kvs <;> simp [resOk]
+theorem rl_isOk : ∀ (xs : List CV) (g : Nat) (et : Option ATy), resOk (resolveList E root g et xs) = acceptsL E root g et xs
+  | [], g, et => by simp [resolveList, acceptsL, resOk]
+  | x :: r, g, none => by simp [resolveList, acceptsL, resOk]
+  | x :: r, g, some e => by
+      have h1 := rc_isOk x g e
+      have h2 := rl_isOk r g (some e)
+      simp only [resolveList, acceptsL]
+      rw [← h1, ← h2]
+      cases resolveConst E root g e x with
+      | err => simp [resOk]
+      | panic => simp [resOk]
+      | ok a => cases resolveList E root g (some e) r <;> simp [resOk]
+theorem rp_isOk : ∀ (kvs : List (CV × CV)) (g : Nat) (kt vt : Option ATy),
+    resOk (resolvePairs E root g kt vt kvs) = acceptsP E root g kt vt kvs
+  | [], g, kt, vt => by simp [resolvePairs, acceptsP, resOk]
+  | (k, v) :: r, g, some kt, some vt => by
+      have h1 := rc_isOk k g kt
+      have h2 := rc_isOk v g vt
+      have h3 := rp_isOk r g (some kt) (some vt)
+      simp only [resolvePairs, acceptsP]
+      rw [← h1, ← h2, ← h3]
+      cases resolveConst E root g kt k with
+      | err => simp [resOk]
+      | panic => simp [resOk]
+      | ok a =>
+        cases resolveConst E root g vt v with
+        | err => simp [resOk]
+        | panic => simp [resOk]
+        | ok b => cases resolvePairs E root g (some kt) (some vt) r <;> simp [resOk]
+  | (k, v) :: r, g, none, vt => by simp [resolvePairs, acceptsP, resOk]
+  | (k, v) :: r, g, some kt, none => by simp [resolvePairs, acceptsP, resOk]
+theorem rm_isOk : ∀ (kvs : List (CV × CV)) (file : Nat) (st : AStruct),
+    resOk (resolveMembers E root file st kvs) = acceptsM E root file st kvs
+  | [], file, st => by simp [resolveMembers, acceptsM, resOk]
+  | (k, v) :: r, file, st => by
+      have h3 := rm_isOk r file st
+      cases k with
+      | lit n =>
+        simp only [resolveMembers, acceptsM]
+        cases hf : findField st.fields n with
+        | none => simp [resOk]
+        | some p =>
+          obtain ⟨idx, f⟩ := p
+          have h1 := rc_isOk v file f.ty
+          simp only []
+          rw [← h1, ← h3]
+          cases typeName E root file f.ty with
+          | err => simp [resOk]
+          | panic => simp [resOk]
+          | ok typ =>
+            cases resolveConst E root file f.ty v with
+            | err => simp [resOk]
+            | panic => simp [resOk]
+            | ok e => cases resolveMembers E root file st r <;> simp [resOk]
+      | int n => simp [resolveMembers, acceptsM, resOk]
+      | dbl b tx => simp [resolveMembers, acceptsM, resOk]
+      | ident s x => simp [resolveMembers, acceptsM, resOk]
+      | list xs => simp [resolveMembers, acceptsM, resOk]
+      | map m => simp [resolveMembers, acceptsM, resOk]
+end
+end acc
+
+end Gen.Defaults
